@@ -396,7 +396,18 @@ def coordinator_unit(ctx):
                     return first_err
                 log.append(("read-first", None))
                 return None
+            if k in cells and k not in ("stop", "error_count"):
+                return cells[k]          # something the coordinator only stores and hands on (the failure lock of a state object)
             raise Unsupported(f"coordinator reads shared cell {k}")
+
+    def as_state_class(real_cls):
+        """the shared state kept as attributes of one object: the REAL initialiser runs on a proxy whose attribute writes and reads are the cell
+        writes and reads of this contract"""
+        class StateProxy(Sh):
+            def __init__(self_, *a, **k):
+                real_cls.__init__(self_, *a, **k)
+
+        return StateProxy
 
     wc_none = ctx.choose(2, "worker_count-is-None") == 1
     Wt = ctx.fresh(IntS, "worker_count")
@@ -480,6 +491,11 @@ def coordinator_unit(ctx):
     get(REL, "coerce_max_errors").compile_into(env)
     get(REL, "coerce_node_error").compile_into(env)
     rf = get(REL, "run_function_on_graph", cut_loops={0: "successors-in-nested-process_node", 1: "dones"}).compile_into(env)
+    for _n, _v in list(env.items()):
+        # a module-level class (inlined by R9) whose initialiser sets the three shared variables: the state object of the engine
+        _init = getattr(_v, "__init__", None)
+        if isinstance(_v, type) and hasattr(_init, "__code__") and {"stop", "first_node_error", "error_count"} <= set(_init.__code__.co_names):
+            env[_n] = as_state_class(_v)
     wc_arg = None if wc_none else SInt(ctx, Wt)
     me_arg = None if me_none else SInt(ctx, Kt)
     W = SInt(ctx, z3.IntVal(min(32, 4 + 4))) if wc_none else SInt(ctx, Wt)
